@@ -11,7 +11,8 @@ from mc import engine
 def main():
     if len(sys.argv) >= 3 and sys.argv[1] == '--_case-digest':
         case = json.loads(sys.stdin.read())
-        print(engine.jdump(engine.replay_case(sys.argv[2], case)))
+        # the code under test may print on stdout: the digest travels on its own marked line
+        print('\nCASE-DIGEST ' + engine.jdump(engine.replay_case(sys.argv[2], case)))
         return 0
     ap = argparse.ArgumentParser()
     ap.add_argument('pid')
